@@ -31,7 +31,7 @@ int rand(void) { int r; ASSUME(r >= 0); return r; }
 void stack_push(stack * s, void * element) { s->element[s->size++] = element; }
 void h_backlink(void) {
 	scratch_pad * scratch = ALLOC(sizeof(scratch_pad));
-	{ IN(unsigned long, ext); scratch->extensions = ext; IN(int, seed); scratch->random_seed_base = seed; }
+	{ IN(unsigned long, ext); scratch->extensions = ext; IN(int, seed); ASSUME(seed >= 0 && seed < 32000); scratch->random_seed_base = seed; }       /* as scratch_pad_new leaves it: rand() % 32000 */
 	scratch->used_footnotes = stack_new(0); scratch->used_glossaries = stack_new(0); scratch->used_citations = stack_new(0);
 	footnote * f = ALLOC(sizeof(footnote)); f->label = NULL; f->label_text = NULL; f->free_para = false; f->count = 1;
 	f->clean_text = ALLOC(2); f->clean_text[0] = 'x'; f->clean_text[1] = 0;
